@@ -333,6 +333,60 @@ func resultUse(fd *ast.FuncDecl, qual string, scoped bool) []string {
 	return out
 }
 
+// shape lists, in source order, the conditions, loop headers, selected calls, header assignments,
+// breaks and returns of fd — enough to pin comparison operators and branch order.
+func shape(fd *ast.FuncDecl) []string {
+	var out []string
+	ast.Inspect(fd.Body, func(n ast.Node) bool {
+		switch x := n.(type) {
+		case *ast.IfStmt:
+			c := src(x.Cond)
+			if x.Init != nil {
+				c = src(x.Init) + "; " + c
+			}
+			out = append(out, "if "+c)
+		case *ast.ForStmt:
+			h := "for"
+			if x.Init != nil {
+				h += " " + src(x.Init) + ";"
+			}
+			if x.Cond != nil {
+				h += " " + src(x.Cond)
+			}
+			if x.Post != nil {
+				h += "; " + src(x.Post)
+			}
+			out = append(out, h)
+		case *ast.BranchStmt:
+			out = append(out, x.Tok.String())
+		case *ast.ReturnStmt:
+			r := "return"
+			for i, e := range x.Results {
+				if i > 0 {
+					r += ","
+				}
+				r += " " + src(e)
+			}
+			out = append(out, r)
+		case *ast.AssignStmt:
+			for i, l := range x.Lhs {
+				ls := src(l)
+				if strings.HasPrefix(ls, "header.") && i < len(x.Rhs) {
+					out = append(out, ls+" "+x.Tok.String()+" "+src(x.Rhs[i]))
+				}
+			}
+		case *ast.CallExpr:
+			f := src(x.Fun)
+			if strings.HasSuffix(f, ".removeFromCommonAncestor") || strings.HasSuffix(f, ".AddGroup") || strings.HasSuffix(f, ".getGroup") ||
+				strings.HasSuffix(f, ".GetGroupByHeight") || f == "append" || strings.HasSuffix(f, ".MovePre") || strings.HasSuffix(f, ".Current") {
+				out = append(out, "call "+src(x))
+			}
+		}
+		return true
+	})
+	return out
+}
+
 // guards lists the conditions of the if-statements of AddGroup whose body returns, up to the call of save.
 func guards(fd *ast.FuncDecl) []string {
 	var out []string
@@ -423,6 +477,7 @@ func main() {
 	var saveMem, removeMem []string
 	var addLock, ancestorLock, saveLock, removeLock []string
 	var removeRets, saveRets, uses []string
+	var availShape, triggerShape, headerRewrite []string
 	pkgVars := map[string]bool{}
 	var fields, flagReads []string
 	type fnBody struct {
@@ -514,7 +569,18 @@ func main() {
 					}
 				}
 			}
+			if isGC && name == "availableGroupsAt" {
+				availShape = shape(fd)
+			}
+			if name == "triggerOnChain" && fd.Recv != nil {
+				triggerShape = shape(fd)
+			}
 			if isGC && name == "AddGroup" {
+				for _, e := range shape(fd) {
+					if strings.HasPrefix(e, "header.") {
+						headerRewrite = append(headerRewrite, e)
+					}
+				}
 				addLock = canon(fd, lockEvents(fd))
 				addGuards = canon(fd, guards(fd))
 				found["AddGroup"] = true
@@ -637,6 +703,12 @@ func main() {
 	b.WriteString(leanList("saveReturns", saveRets))
 	b.WriteString("\n/-- What each caller does with the result of `save` / `remove`. -/\n")
 	b.WriteString(leanList("resultUses", uses))
+	b.WriteString("\n/-- The header fields `AddGroup` rewrites before `save`. -/\n")
+	b.WriteString(leanList("addHeaderRewrite", headerRewrite))
+	b.WriteString("\n/-- Shape (conditions, loops, calls, breaks, returns in source order) of `availableGroupsAt`. -/\n")
+	b.WriteString(leanList("availableShape", availShape))
+	b.WriteString("\n/-- Shape of `groupChainFork.triggerOnChain`. -/\n")
+	b.WriteString(leanList("triggerOnChainShape", triggerShape))
 	b.WriteString("\n" + leanList("saveCallers", saveCallers))
 	b.WriteString("\n" + leanList("removeCallers", removeCallers))
 	b.WriteString("\n/-- Fields of `type groupChain struct` — all the state a chain object has. -/\n")
